@@ -139,9 +139,15 @@ class Renderer:
             return r
         if k == "ite":
             return self.ev(t[2], env) if self.ev(t[1], env) else self.ev(t[3], env)
+        if k == "slice":
+            return slice(*[None if x == N.NONE else self.ev(x, env) for x in t[1:4]])
         if k == "free":
             if t[1] in self.M.classes:
                 return ("class", t[1])
+            lit = self.M.module_assigns.get(EXPR, {}).get(t[1])
+            if isinstance(lit, (ast.Set, ast.Tuple, ast.List)) and all(isinstance(x, ast.Attribute) and isinstance(x.value, ast.Name) and x.value.id == "operator" for x in lit.elts):
+                # a module-level collection of operator functions, in the spelling the symbolic trees carry
+                return {self.ev(("attr", ("free", "operator"), x.attr), env) for x in lit.elts}
             if t[1] in ("int", "float", "str", "bytes", "bool", "complex", "repr"):
                 return {"int": int, "float": float, "str": str, "bytes": bytes, "bool": bool, "complex": complex, "repr": repr}[t[1]]
             raise KeyError(t[1])
@@ -161,7 +167,12 @@ class Renderer:
             if f[0] == "free" and f[1] in self.M.functions:
                 fi = self.M.functions[f[1]]
                 names = [a.arg for a in fi.node.args.args]
-                return self.call(paths_of(self.ctx, fi), dict(zip(names, args)), fi)
+                bound = dict(zip(names, args))
+                dfl = fi.node.args.defaults
+                for nm, dv in zip(names[len(names) - len(dfl):], dfl):
+                    if nm not in bound and isinstance(dv, ast.Constant):
+                        bound[nm] = dv.value
+                return self.call(paths_of(self.ctx, fi), bound, fi)
             if f[0] == "attr" and f[2] in ("startswith", "format", "join", "strip"):
                 return getattr(self.ev(f[1], env), f[2])(*args)
             if f[0] == "attr" and f[1] == ("param", "self"):
@@ -453,7 +464,14 @@ def run(ctx):
     fn = mk("func", func="len", operand=None)
     ctx.ob("C11.R5", M.method("FuncPath", "__repr__"), rnd.render(fn, "__repr__") == "len_" and rnd.render(leaves[-1][1], "__repr__").startswith("len_("), "FuncPath renders as <function name>_ and <function name>_(operand)", key="FuncPath name")
     fi, paths = own_method_paths(ctx, "RepeatUntil", "_emitparse")
-    ctx.floor("C11.R5", 14)
+    # this.<name> must be a path step for *every* field name: the path classes reserve no plain attribute (method, property, class constant)
+    for cname in ("ExprMixin", "Path", "Path2"):
+        ci = M.cls(cname)
+        plain = [st.name for st in ci.node.body if isinstance(st, ast.FunctionDef) and not (st.name.startswith("__") and st.name.endswith("__"))]
+        plain += [t.id for st in ci.node.body if isinstance(st, ast.Assign) for t in st.targets if isinstance(t, ast.Name) and not (t.id.startswith("__") and t.id.endswith("__"))]
+        ctx.ob("C11.R5", cname, not plain, "%s defines only double-underscore names, so no field name is shadowed (found %s): this.%s would stop being a path expression" % (cname, plain, plain[0] if plain else "x"),
+               key="%s namespace" % cname, loc=EXPR)
+    ctx.floor("C11.R5", 17)
 
     # positive control: the grammar oracle must notice a dropped parenthesis
     got = shape_of_ast(ast.parse("this['a'] + 3 * this['a']", mode="eval").body)
